@@ -52,6 +52,10 @@ Definition hstate_of_tok (t : string) : option hstate :=
   if String.eqb t "new" then Some Untracked else if String.eqb t "offline" then Some TrackedOffline
   else if String.eqb t "online" then Some TrackedOnline else None.
 
+Definition level_of_tok (t : string) : option loglevel :=
+  if String.eqb t "error" then Some LError else if String.eqb t "info" then Some LInfo
+  else if String.eqb t "debug" then Some LDebug else None.
+
 Definition show_allocs (r : res nat) : string :=
   match r with
   | Ok O => "0"
@@ -117,6 +121,17 @@ Definition dispatch (kind : string) (args : list string) : string :=
         | Some c, Some st, Some b => out3 (show_allocs (parse_allocs c (fun _ => st) (of_bytes b))) "-" "-"
         | _, _, _ => BADARGS
         end
+    | [hm; rm; lan; bits; st; fr; lv] =>
+        (* with the log level as a seventh token: error | info | debug *)
+        match cfg_of_toks hm rm lan bits, hstate_of_tok st, bytes_of_tok fr, level_of_tok lv with
+        | Some c, Some st, Some b, Some l => out3 (show_allocs (parse_allocs_lvl l c (fun _ => st) (of_bytes b))) "-" "-"
+        | _, _, _, _ => BADARGS
+        end
+    | _ => BADARGS
+    end
+  else if String.eqb kind "logs" then
+    match args with
+    | [_] => out3 show_logs "-" "-"
     | _ => BADARGS
     end
   else if String.eqb kind "ppa" then
